@@ -1,16 +1,32 @@
 // C13 (1a) editor / history conformance: BFS over keystroke histories on a real Terminal session driven
-// through a fake Connection; every key is delivered as its unsplit byte encoding via onRecvString.
+// through a fake Connection; keys are delivered as their unsplit byte encodings via onRecvString, one key per
+// segment (default) or several keys glued into one segment (C13_GLUE).
 // Histories are replayed inside a crash-contained persistent child (c13::Worker), so a crashing key does not end the search.
 // usage: editor_harness <echo|noecho|quiet> <depth> <prefill 0|19>
+// environment:
+//   C13_ENTER = crlf (default) | cr | lf | crnul   byte encoding of the Enter key. A bare CR is an Enter only when it ends
+//               a segment (Enter is CR LF, CR NUL, LF, or a CR that ends a segment), so in glued runs 'cr' means:
+//               CR for an Enter that ends its segment, CR LF for an Enter inside a segment.
+//   C13_GLUE  = none (default) | all | pairs0 | pairs1   the keys of a history are sent one per onRecvString call / all in
+//               ONE call / in adjacent pairs starting at key 0 / in adjacent pairs starting at key 1 (key 0 alone)
+//   C13_TWIN  = 1   a second session on the SAME Terminal (own connection, own reference) receives one key of the fixed cycle
+//               {b, LEFT, a, ENTER, UP, ENTER} after every segment of the first; both sessions are judged after each of their segments
+//   C13_ALPHA = base (default) | alias   alias = {a, LEFT, UP, ENTER} + 0x08 as Backspace + keys the reference editor does
+//               not know (TAB, Insert, PgUp, PgDn, F1, F5, F12, Alt+a, Ctrl+Alt+a, 0xC2 0xA1, an unknown CSI, a lone ESC),
+//               which it therefore ignores
 #include "hist/hist.h"
 #include "c13_common.h"
 #include <deque>
 #include <map>
 using namespace c13;
 
-enum Key { KA, KB, BS, DEL, LEFT, RIGHT, HOME, END, UP, DOWN, ENTER, NKEY };
-static const char *ENC[] = {"a", "b", "\x7f", "\033[3~", "\033[D", "\033[C", "\033[1~", "\033[4~", "\033[A", "\033[B", "\r\n"};
-static const char *KN[] = {"a", "b", "BS", "DEL", "LEFT", "RIGHT", "HOME", "END", "UP", "DOWN", "ENTER"};
+enum Key { KA, KB, BS, DEL, LEFT, RIGHT, HOME, END, UP, DOWN, ENTER, NKEY,
+           // alias alphabet: a second encoding of Backspace, and keys outside the reference editor (ignored by it)
+           BS08 = NKEY, TAB, INS, PGUP, PGDN, F1, F5, F12, ALTA, CTRLALTA, C2A1, CSI9, ESC, NKEY_ALL };
+static const char *ENC[] = {"a", "b", "\x7f", "\033[3~", "\033[D", "\033[C", "\033[1~", "\033[4~", "\033[A", "\033[B", "\r\n",
+                            "\x08", "\t", "\033[2~", "\033[5~", "\033[6~", "\033OP", "\033[15~", "\033[24~", "\033" "a", "\xc2\x81", "\xc2\xa1", "\033[9", "\033"};
+static const char *KN[] = {"a", "b", "BS", "DEL", "LEFT", "RIGHT", "HOME", "END", "UP", "DOWN", "ENTER",
+                           "BS08", "TAB", "INS", "PGUP", "PGDN", "F1", "F5", "F12", "ALT-a", "CTRL-ALT-a", "C2A1", "CSI9", "ESC"};
 
 // Reference line editor + history (conventions of DESIGN 1.7: Down past the newest entry gives an empty line,
 // a half-typed line is not kept while browsing; every non-empty executed line is stored, 20 kept).
@@ -21,7 +37,7 @@ struct Ref {
   bool key(int k, std::string &executed) {
     switch (k) {
       case KA: case KB: line.insert(cur, 1, k == KA ? 'a' : 'b'); cur++; break;
-      case BS: if (cur > 0) { line.erase(cur - 1, 1); cur--; } break;
+      case BS: case BS08: if (cur > 0) { line.erase(cur - 1, 1); cur--; } break;
       case DEL: if (cur < line.size()) line.erase(cur, 1); break;
       case LEFT: if (cur > 0) cur--; break;
       case RIGHT: if (cur < line.size()) cur++; break;
@@ -30,6 +46,7 @@ struct Ref {
       case UP: if (hidx < hist.size()) { hidx++; line = hist[hist.size() - hidx]; cur = line.size(); } break;
       case DOWN: if (hidx > 0) { hidx--; if (hidx > 0) { line = hist[hist.size() - hidx]; cur = line.size(); } else { line.clear(); cur = 0; } } break;
       case ENTER: executed = line; if (!line.empty()) { hist.push_back(line); if (hist.size() > 20) hist.pop_front(); } line.clear(); cur = 0; hidx = 0; return true;
+      default: break;   // a key the reference editor does not know: ignored
     }
     return false;
   }
@@ -38,8 +55,32 @@ struct Ref {
 static std::vector<std::vector<std::string>> g_calls;   // argv of every probe invocation
 
 static std::string g_enter = "\r\n";     // byte encoding of the Enter key in this run: CR LF, bare CR, bare LF or CR NUL (all four are accepted by the scanner)
+static bool g_enter_cr = false;          // C13_ENTER=cr: bare CR, which is an Enter only at the end of a segment
+static std::string g_glue = "none", g_alpha = "base"; static bool g_twin = false;
 static std::string g_mode; static int g_prefill = 0; static size_t g_depth = 6; static uint32_t g_options = 0; static bool g_quiet = false;
 static Terminal *g_term = nullptr; static Worker g_worker;
+
+static std::string enc(int k, bool ends_segment) {
+  if (k == ENTER) return (g_enter_cr && !ends_segment) ? std::string("\r\n") : g_enter;
+  return ENC[k];
+}
+static std::vector<int> alphabet() {
+  std::vector<int> m;
+  if (g_alpha == "alias") { m = {KA, LEFT, UP, ENTER, BS08, TAB, INS, PGUP, PGDN, F1, F5, F12, ALTA, CTRLALTA, C2A1, CSI9};
+    if (g_glue == "none") m.push_back(ESC); }   // a lone ESC is a key of its own only when nothing follows it in the segment
+  else for (int k = 0; k < NKEY; k++) m.push_back(k);
+  return m;
+}
+// how the keys of a history are cut into segments (one onRecvString call each)
+static std::vector<std::vector<int>> segments_of(const std::vector<int> &h) {
+  std::vector<std::vector<int>> segs;
+  if (g_glue == "all") { if (!h.empty()) segs.push_back(h); }
+  else if (g_glue == "pairs0" || g_glue == "pairs1") {
+    size_t i = 0; if (g_glue == "pairs1" && !h.empty()) { segs.push_back({h[0]}); i = 1; }
+    for (; i < h.size(); i += 2) { segs.push_back({h[i]}); if (i + 1 < h.size()) segs.back().push_back(h[i + 1]); }
+  } else for (int k : h) segs.push_back({k});
+  return segs;
+}
 
 // child side: one Terminal per child (the node tree is constant configuration); a FRESH session per replayed history
 static void setup() {
@@ -56,45 +97,60 @@ static std::string replay(const std::vector<int> &h, std::string &viol) {
   if (!g_term) setup();
   Terminal &term = *g_term; uint32_t options = g_options; bool quiet = g_quiet; int prefill = g_prefill;
   {
-    FakeConn c; SessionToken st = term.newSession(&c); term.setOptions(st, options); term.onBegin(st);
-    SessionContext *s = term.impl_->sessions_.at(st);
-    Ref ref; std::string executed;
-    auto step = [&](int k) -> bool {
+    struct Side { FakeConn c; SessionToken st; SessionContext *s = nullptr; Ref ref; };
+    Side first, second;
+    for (Side *sd : {&first, &second}) { if (sd == &second && !g_twin) break; sd->st = term.newSession(&sd->c); term.setOptions(sd->st, options); term.onBegin(sd->st); sd->s = term.impl_->sessions_.at(sd->st); }
+    // one segment = the byte encodings of its keys in ONE onRecvString call; judged against the reference after the call
+    auto step_on = [&](Side &sd, const std::vector<int> &keys) -> bool {
+      FakeConn &c = sd.c; SessionToken &st = sd.st; SessionContext *s = sd.s; Ref &ref = sd.ref;
       c.out.clear(); g_calls.clear();
+      std::string bytes; for (size_t i = 0; i < keys.size(); i++) bytes += enc(keys[i], i + 1 == keys.size());
+      int k = keys.back(); bool glued = keys.size() > 1;
+      std::vector<std::string> want; size_t enters = 0; std::string where;      // reference: the non-empty lines executed by this segment, in order
+      for (size_t i = 0; i < keys.size(); i++) { if (i + 1 == keys.size()) where = ref.where(); std::string executed; if (ref.key(keys[i], executed)) { enters++; if (!executed.empty()) want.push_back(executed); } }
       bool r;
-      try { r = term.onRecvString(st, k == ENTER ? g_enter : std::string(ENC[k])); } catch (const std::exception &e) { viol = std::string("editor-key-") + KN[k] + "-" + ref.where() + "-uncaught-exception what=" + e.what(); g_worker.poisoned = true; return false; }
-      bool is_enter = ref.key(k, executed);
+      try { r = term.onRecvString(st, bytes); } catch (const std::exception &e) { viol = std::string("editor-key-") + KN[k] + "-" + where + "-uncaught-exception what=" + e.what(); g_worker.poisoned = true; return false; }
       if (!r) { viol = "key-rejected-by-live-session"; return false; }
-      if (is_enter) {
-        if (executed.empty()) { if (!g_calls.empty()) { viol = "enter-on-empty-line-executed-a-command got='" + esc(g_calls[0][0]) + "'"; return false; } }
-        else if (g_calls.size() != 1 || g_calls[0].size() != 1 || g_calls[0][0] != executed) {
-          viol = "enter-executed-line-differs-from-reference ref='" + esc(executed) + "' impl=" + (g_calls.empty() ? std::string("<nothing reached the probe>") : "'" + esc(g_calls[0][0]) + "' x" + std::to_string(g_calls.size())) + " sent='" + esc(c.out.substr(0, 80)) + "'"; return false; }
+      std::string seg = glued ? " segment='" + esc(bytes) + "'" : "";
+      if (enters) {
+        bool same = g_calls.size() == want.size(); for (size_t i = 0; same && i < want.size(); i++) same = g_calls[i].size() == 1 && g_calls[i][0] == want[i];
+        if (!same && want.empty()) { viol = "enter-on-empty-line-executed-a-command got='" + esc(g_calls[0][0]) + "'" + seg; return false; }
+        if (!same) { std::string w, g; for (auto &x : want) w += "'" + esc(x) + "' "; for (auto &x : g_calls) g += "'" + esc(x[0]) + "' ";
+          viol = "enter-executed-line-differs-from-reference ref=" + w + "impl=" + (g_calls.empty() ? std::string("<nothing reached the probe> ") : g) + "sent='" + esc(c.out.substr(0, 80)) + "'" + seg; return false; }
         size_t prompts = count_sub(c.out, "# ");
-        if (!quiet && prompts != 1) { viol = "enter-answered-by-" + std::to_string(prompts) + "-prompts"; return false; }
+        if (!quiet && prompts != enters) { viol = (glued ? "enters-" + std::to_string(enters) + "-answered-by-" : std::string("enter-answered-by-")) + std::to_string(prompts) + "-prompts" + seg; return false; }
         if (quiet && prompts != 0) { viol = "quiet-session-printed-a-prompt"; return false; }
-      } else if (!g_calls.empty()) { viol = std::string("editing-key-executed-a-command key=") + KN[k]; return false; }
+      } else if (!g_calls.empty()) { viol = std::string("editing-key-executed-a-command key=") + KN[k] + seg; return false; }
       // anchored mechanism: cursor <= line length, history bounded
       if (s->cursor > s->curr_input.size()) { viol = "editor-cursor-beyond-line-end cursor=" + std::to_string(s->cursor) + " len=" + std::to_string(s->curr_input.size()); return false; }
       if (s->history.size() > 20) { viol = "history-longer-than-20"; return false; }
       if (s->history_index > s->history.size()) { viol = "history-index-beyond-history"; return false; }
       // state conformance with the reference (earliest point a divergence is visible)
-      if (s->curr_input != ref.line) { viol = "editor-line-differs-from-reference impl='" + esc(s->curr_input) + "' ref='" + esc(ref.line) + "'"; return false; }
-      if (s->cursor != ref.cur) { viol = "editor-cursor-differs-from-reference impl=" + std::to_string(s->cursor) + " ref=" + std::to_string(ref.cur); return false; }
-      if (s->history.size() != ref.hist.size() || !std::equal(ref.hist.begin(), ref.hist.end(), s->history.begin())) { viol = "history-content-differs-from-reference"; return false; }
-      if (s->history_index != ref.hidx) { viol = "history-index-differs-from-reference"; return false; }
+      if (s->curr_input != ref.line) { viol = "editor-line-differs-from-reference impl='" + esc(s->curr_input) + "' ref='" + esc(ref.line) + "'" + seg; return false; }
+      if (s->cursor != ref.cur) { viol = "editor-cursor-differs-from-reference impl=" + std::to_string(s->cursor) + " ref=" + std::to_string(ref.cur) + seg; return false; }
+      if (s->history.size() != ref.hist.size() || !std::equal(ref.hist.begin(), ref.hist.end(), s->history.begin())) { viol = "history-content-differs-from-reference" + seg; return false; }
+      if (s->history_index != ref.hidx) { viol = "history-index-differs-from-reference" + seg; return false; }
       return true;
     };
+    static const int TWIN_KEYS[] = {KB, LEFT, KA, ENTER, UP, ENTER}; size_t twin_i = 0;   // types "ab", runs it, recalls it, runs it again
+    auto step = [&](const std::vector<int> &keys) -> bool {
+      if (!step_on(first, keys)) return false;
+      if (g_twin && !step_on(second, {TWIN_KEYS[twin_i++ % 6]})) { viol = "second-session:" + viol; return false; }
+      return true;
+    };
+    SessionContext *s = first.s; Ref &ref = first.ref;
     bool ok = true;
-    for (int i = 0; ok && i < prefill; i++) {   // 19 distinct stored lines typed through the same path
-      for (int b = 0; ok && b < 5; b++) ok = step(((i >> b) & 1) ? KB : KA);
-      ok = ok && step(ENTER);
+    for (int i = 0; ok && i < prefill; i++) {   // 19 distinct stored lines typed through the same path, one key per segment
+      for (int b = 0; ok && b < 5; b++) ok = step({((i >> b) & 1) ? KB : KA});
+      ok = ok && step({ENTER});
     }
     if (!ok) viol = "prefill:" + viol;
-    for (size_t i = 0; ok && i < h.size(); i++) ok = step(h[i]);
+    if (ok) for (auto &seg : segments_of(h)) { if (!step(seg)) break; }
     std::string canon = s->curr_input + "|" + std::to_string(s->cursor) + "|" + std::to_string(s->history_index) + "|";
     for (auto &x : s->history) canon += x + ",";
     canon += "|" + ref.line + "|" + std::to_string(ref.cur) + "|" + std::to_string(ref.hidx) + "|" + std::to_string(ref.hist.size());
-    term.deleteSession(st);
+    if (g_twin) { canon += "||" + second.s->curr_input + "|" + std::to_string(second.s->cursor) + "|" + std::to_string(second.s->history_index) + "|"; for (auto &x : second.s->history) canon += x + ","; term.deleteSession(second.st); }
+    term.deleteSession(first.st);
     return canon;
   }
 }
@@ -111,17 +167,21 @@ int main(int argc, char **argv) {
   signal(SIGPIPE, SIG_IGN);
   bool one = argc > 5 && std::string(argv[1]) == "--one"; int o = one ? 1 : 0;
   g_mode = argc > 1 + o ? argv[1 + o] : "echo"; g_depth = argc > 2 + o ? atoi(argv[2 + o]) : 6; g_prefill = argc > 3 + o ? atoi(argv[3 + o]) : 0;
-  { std::string e = getenv("C13_ENTER") ? getenv("C13_ENTER") : "crlf"; g_enter = e == "cr" ? std::string("\r") : e == "lf" ? std::string("\n") : e == "crnul" ? std::string("\r\0", 2) : std::string("\r\n"); }
+  std::string enter_name = getenv("C13_ENTER") ? getenv("C13_ENTER") : "crlf";
+  { const std::string &e = enter_name; g_enter_cr = e == "cr"; g_enter = e == "cr" ? std::string("\r") : e == "lf" ? std::string("\n") : e == "crnul" ? std::string("\r\0", 2) : std::string("\r\n"); }
+  if (getenv("C13_GLUE")) g_glue = getenv("C13_GLUE");
+  if (getenv("C13_ALPHA")) g_alpha = getenv("C13_ALPHA");
+  g_twin = getenv("C13_TWIN") && atoi(getenv("C13_TWIN")) != 0;
   g_options = g_mode == "echo" ? TerminalInteract::kEnableEcho : g_mode == "quiet" ? TerminalInteract::kQuietMode : 0; g_quiet = g_mode == "quiet";
   if (one) { std::vector<int> h; for (const char *p = argv[5]; *p; p++) h.push_back(*p - 'A'); std::string v; replay(h, v); fprintf(stderr, "viol=%s\n", v.c_str()); return 0; }
   size_t depth = g_depth;
   g_worker.recycle_after = 50000;
   g_worker.fn = [](const std::string &job) { std::vector<int> h; for (char ch : job) h.push_back(ch); std::string v, c = replay(h, v); c.push_back('\0'); return c + v; };
-  printf("@INFO editor %s: probe mounted under every line over {a,b} up to length %zu\n", g_mode.c_str(), (g_prefill ? 5 : 0) + g_depth);
+  printf("@INFO editor %s: probe mounted under every line over {a,b} up to length %zu; enter=%s glue=%s alphabet=%s\n", g_mode.c_str(), (g_prefill ? 5 : 0) + g_depth, enter_name.c_str(), g_glue.c_str(), g_alpha.c_str());
   std::map<std::string, int> crash_seen;
-  hx::Explorer<int> ex; ex.name = "editor:" + g_mode + ":prefill" + std::to_string(g_prefill); ex.deadline_s = deadline(600);
+  hx::Explorer<int> ex; ex.name = "editor:" + g_mode + ":prefill" + std::to_string(g_prefill) + (g_alpha != "base" ? ":alpha-" + g_alpha : "") + (g_glue != "none" ? ":glue-" + g_glue + ":enter-" + enter_name : "") + (g_twin ? ":two-sessions" : ""); ex.deadline_s = deadline(600);
   ex.show = [](const int &k) { return std::string(KN[k]); };
-  ex.menu = [&](const std::vector<int> &) { std::vector<int> m; for (int k = 0; k < NKEY; k++) m.push_back(k); return m; };
+  ex.menu = [&](const std::vector<int> &) { return alphabet(); };
   ex.run = [&](const std::vector<int> &h, std::string &viol) {
     std::string job; for (int k : h) job.push_back((char)k);
     std::string res, crash;
